@@ -91,11 +91,19 @@ fn main() {
         let mut c = M::new();
         let mut s = M::new();
         let ns = rng.range(1, 6);
+        let scale = rng.below(3);
         for k in 1..=ns {
             for m in [&mut c, &mut s] {
                 if rng.chance(3, 4) {
                     let a = rng.below(21);
                     let b = if rng.chance(1, 12) { rng.below(21) } else { a + rng.below(21 - a) };
+                    // mixed time scales: nanoseconds, whole seconds, and seconds +- a few ns, so that
+                    // sub-second gaps and whole-second gaps both occur between windows
+                    let (a, b) = match scale {
+                        0 => (a, b),
+                        1 => (a * 1_000_000_000, b * 1_000_000_000),
+                        _ => (a * 500_000_000 + rng.below(3), b * 500_000_000 + rng.below(3)),
+                    };
                     m.insert(sid(k), (Duration::from_nanos(a), Duration::from_nanos(b)));
                 }
             }
